@@ -944,6 +944,85 @@ func (h *c09Harness) execConcurrent(line string) {
 	h.s.Add("reader-goroutines", len(c.readers)*c.nr)
 }
 
+// singleStablePhase: ONE stable epoch (the oldest) stays loaded while a writer keeps adding and removing a transient
+// epoch with a HIGHER number; readers ask for a transaction, a block and a block time of the stable epoch and every
+// answer must be the idle server's.  (With exactly one epoch loaded the signature search takes its single-epoch
+// path; a query addressed to the epoch that stays loaded must not notice the other one coming and going.)
+func (h *c09Harness) singleStablePhase(rng *zz.RNG) {
+	if err := h.fixtures(); err != nil {
+		return
+	}
+	line := fmt.Sprintf("concurrent-single stable=%d transient=%d", c09Lo, c09TransBase)
+	m := NewMultiEpoch(&Options{EpochSearchConcurrency: 4})
+	m.AddEpoch(c09Lo, h.lo.Ep)
+	handler := newMultiEpochHandler(m, nil)
+	names := []string{"rpc:getTransaction", "rpc:getBlock", "rpc:getBlockTime"}
+	idle := map[string]string{}
+	for _, n := range names {
+		_, a := doRPC(handler, h.reqs[n])
+		_, b := doRPC(handler, h.reqs[n])
+		if a == b {
+			idle[n] = a
+		}
+	}
+	var stop atomic.Bool
+	var wg, wgW sync.WaitGroup
+	var mu sync.Mutex
+	bad := ""
+	var nq atomic.Int64
+	wgW.Add(1)
+	go func() { // the writer
+		defer wgW.Done()
+		for i := 0; !stop.Load(); i++ {
+			e := uint64(c09TransBase + i%2)
+			m.AddEpoch(e, h.transient(e, false))
+			runtime.Gosched()
+			m.RemoveEpoch(e)
+		}
+	}()
+	deadline := time.Now().Add(4 * time.Second)
+	for g := 0; g < 6; g++ {
+		wg.Add(1)
+		go func(g int) {
+			defer wg.Done()
+			for it := 0; time.Now().Before(deadline) && !stop.Load(); it++ {
+				n := names[(it+g)%len(names)]
+				want, ok := idle[n]
+				if !ok {
+					continue
+				}
+				got := zz.Guard(func() string { _, g := doRPC(handler, h.reqs[n]); return g }) // "panic" when the handler panics
+				nq.Add(1)
+				if got != want {
+					mu.Lock()
+					if bad == "" {
+						bad = n + ": got " + c09Trunc(got) + " want " + c09Trunc(want)
+					}
+					mu.Unlock()
+					stop.Store(true)
+					return
+				}
+			}
+		}(g)
+	}
+	done := make(chan struct{})
+	go func() { wg.Wait(); stop.Store(true); wgW.Wait(); close(done) }()
+	out := "ok"
+	select {
+	case <-done:
+	case <-time.After(60 * time.Second):
+		out = "no-progress"
+	}
+	stop.Store(true)
+	h.s.Add("single-stable-phase-queries", int(nq.Load()))
+	if bad != "" {
+		out = "violation"
+		h.s.Violation("one stable epoch loaded, a higher-numbered epoch added and removed concurrently: a query addressed to the stable epoch is not answered as on the idle server — "+bad,
+			"C09:stable-epoch:single-epoch-server", h.s.Replay([]string{line}))
+	}
+	h.s.Op(line, out, out == "ok")
+}
+
 // ---------------------------------------------------------------------------------------------------------------
 // generators
 
@@ -1155,6 +1234,10 @@ func TestVerifC09(t *testing.T) {
 	h := &c09Harness{s: s, t: t, dir: dir, leaked: map[int]bool{}, bad: map[string]bool{}}
 	in := &c09Interp{s: s, h: h}
 	runLine := func(line string) {
+		if strings.HasPrefix(line, "concurrent-single") {
+			h.singleStablePhase(zz.NewRNG(zz.Seed()))
+			return
+		}
 		if strings.HasPrefix(line, "concurrent") {
 			h.execConcurrent(line)
 			return
@@ -1162,9 +1245,41 @@ func TestVerifC09(t *testing.T) {
 		if strings.HasPrefix(line, "case") {
 			h.caseOps = nil
 		}
-		op, out, nt := in.exec(line)
-		h.caseOps = append(h.caseOps, op)
-		s.Op(op, out, nt)
+		// every sequential op under a watchdog: an op that never returns while a goroutine is parked in MultiEpoch's
+		// RWMutex means an earlier op left the lock held (a structural fact, not a timing judgement)
+		type res struct {
+			op, out string
+			nt      bool
+		}
+		ch := make(chan res, 1)
+		go func() {
+			op, out, nt := in.exec(line)
+			ch <- res{op, out, nt}
+		}()
+		var r res
+		select {
+		case r = <-ch:
+		case <-time.After(20 * time.Second):
+			parked := ""
+			for _, g := range c09Goroutines() {
+				if c09ParkedInRWMutex(g) {
+					parked = c09Methods(g.stack)
+					break
+				}
+			}
+			if parked == "" {
+				r = <-ch // slow, not stuck
+				break
+			}
+			h.caseOps = append(h.caseOps, line)
+			s.Violation("operation `"+line+"` never returns: a goroutine is parked in MultiEpoch.mu ("+parked+") with no operation in flight that could release it; an earlier operation of this case left the lock held",
+				"C09:deadlock:sequential:"+strings.Fields(line)[0], s.Replay(h.caseOps))
+			s.Op(line, "deadlock", false)
+			in.multi = nil // abandon the stuck instance
+			return
+		}
+		h.caseOps = append(h.caseOps, r.op)
+		s.Op(r.op, r.out, r.nt)
 	}
 	if rp := zz.ReplayFile(); rp != "" {
 		data, err := os.ReadFile(rp)
@@ -1184,4 +1299,5 @@ func TestVerifC09(t *testing.T) {
 		runLine(l)
 	}
 	h.genConcurrent(rng)
+	h.singleStablePhase(rng)
 }
